@@ -527,7 +527,9 @@ def gen_query(draw, G, sids=None):
         if draw(st.booleans()) or (style == "[]" and len(args) == 1):
             args[j] = {"nt": v}
         else:
-            args[j] = v
+            # (plain tuples from another value range: Pt(1, 0) == (1, 0) would be the same element, served with
+            #  whichever object was computed first)
+            args[j] = [v[0] + 5, v[1] + 5]
     if style == "kw":
         if not args:
             style = "()"
